@@ -94,7 +94,10 @@ CHECKS = {
           "(closures = edit sequences + Ok/Err exit). TLC model-checks RingsClosed and RectOrdered over all histories within the "
           "constants; every transition of the state graph becomes one implementation test (pre-state built through the API, action "
           "executed, post-state compared); simulated 20-call behaviours are replayed from Init; seeded random histories recorded "
-          "from the real API are validated as a chain against Trace_PolySession (diameter post-condition, invariants in every state)."),
+          "from the real API are validated as a chain against Trace_PolySession (diameter post-condition, invariants in every state). "
+          "Apalache additionally discharges RingsClosed /\\ RectOrdered as an inductive invariant of the typed restatement PolyInd.tla "
+          "(closures abstracted to any resulting ring + Ok/Err; unbounded coordinates and history length) and refutes the "
+          "early-return-on-Err variant."),
     note=("Trusted: TLC; the edit language (push/pop/clear/set/insert + exit) as a stand-in for arbitrary closures; closures that "
           "panic are not modelled. The invariant is inductive in the model; bounds NC<=4 coordinates, rings <= 4(+1), <= 3 holes."),
     technique="TLA+ state machine: TLC invariants + per-transition replay + chained trace validation", design_ref="DESIGN.md 5 C18"),
